@@ -180,10 +180,12 @@ P["C13"] = dict(
     lean_targets=["JSight.Props.C13", "JSight.Props.C01"],
     obligations=ob("JSight.Props.C13",
         ("Props.C13.C13_whitespace_invariant", "two valid texts with the same tree modulo layout give the same event-type sequence"),
+        ("Props.C13.C13_newline_idempotent", "loader model: a new-line event after a new-line event changes nothing (LF / CR / CRLF, blank lines)"),
+        ("Props.C13.C13_newline_run_absorbed", "loader model: any run of further new-line events is absorbed"),
         ("JsonScan.evs_types", "event types are a function of the stripped tree")) + ob("JSight.Props.C01",
         ("Props.C01.C01_order_indep", "verdict invariant under property order in the document")),
-    runs=[{"cmd": ["c13-metamorphic"]}, {"cmd": ["unquote-diff"]}, {"cmd": ["schema-diff"]}],
-    partial="document whitespace and property order are theorems; escapes, line ends, comments, annotation spelling, rule order in text go through unquoting, the schema scanner and the loader: validated (metamorphic differential on the real code, scanner/unquote models)",
+    runs=[{"cmd": ["c13-metamorphic"]}, {"cmd": ["loader-diff"]}, {"cmd": ["unquote-diff"]}, {"cmd": ["schema-diff"]}],
+    partial="document whitespace and property order are theorems; on the schema side the loader model (text -> node tree with bound annotations, compared with the real GetAST by loader-diff) absorbs repeated new-line events (theorem); escapes, comments, annotation spelling, rule order in text: validated (metamorphic differential on the real code, scanner / loader / unquote models)",
     level_text="Proof (partial): re-spelling a document's whitespace does not change the event sequence the validator is fed (theorem from C06), property order does not change the verdict (C01). Search: generated schemas in a base spelling and variants composed of all listed rewrites (line ends, indentation, comments, inline vs multi-line annotations, notes, quoted names, trailing comma, rule order) must agree in Check verdict, AST and validation verdicts; documents re-spelled (whitespace, member order, escapes).",
     level_note="Trusted: Lean kernel; loader-level rewrites are translation-validated on the real code only.",
     technique="Lean 4 theorems (layout/order invariance) + metamorphic exploration")
@@ -221,8 +223,8 @@ P["C16"] = dict(
         ("Props.C16.C16_precision_fourth", "then precision"),
         ("Props.C16.C16_kind_last", "then the JSON kind"),
         ("Props.C16.C16_rules_order", "rules listed in constraint-map order, types hidden")),
-    runs=[{"cmd": ["c16-ast"]}],
-    partial="type precedence and rule order are theorems on the AST model; text -> AST goes through scanner + loader and is translation-validated",
+    runs=[{"cmd": ["c16-ast"]}, {"cmd": ["loader-diff"]}],
+    partial="type precedence and rule order are theorems on the AST model; text -> node tree (scanner + loader) is a Lean model compared with the real GetAST (loader-diff: kinds in source order, keys, shortcut flags, values, rule names in order, notes); the rule values' AST is translation-validated",
     level_text="Translation validation: the generator's abstract schema determines the expected AST (one node per example value in source order, key/shortcut flag, token kind, value, declared-or-inferred type, rules with names/values/order/source marks, notes); the real GetAST() of the printed text is compared field by field. The type-precedence decision table and the rule order are additionally theorems on a Lean model of astNodeFromNode.",
     level_note="Trusted: the Go generator/printer and its expected-AST function (conventions calibrated on the unchanged tree are listed in its source); Lean kernel for the decision-table theorems.",
     technique="translation validation of text -> AST against an IR-computed AST + Lean 4 decision-table theorems")
